@@ -352,6 +352,8 @@ def _c16_o2(W, ob):
     return _m.o2(W, ob)
 
 
+from . import inventory
+
 OBLIGATIONS = [
     ('C02.O1', 'single constructors', 'SaveGameState / LoadGameState are built only in save_current_state / load_frame '
      'with frame, cell and counter agreeing; load_frame keeps its three assertions.', o1),
@@ -372,4 +374,6 @@ OBLIGATIONS = [
     ('C02.W', 'configuration wiring', 'no crossed wires at call sites, in struct literals and in plain getters (last_saved_frame / last_confirmed_frame / current_frame are three same-typed fields with three getters); see rules/wiring.py', wiring.rule),
     ('C02.M', 'must-call floor', 'the calls listed for this property in tables/must_call.json are made on every path from the entry of their function to a normal return (interprocedural must-call): a new early return, fast path or extra condition in front of one of them is reported; see rules/mustcall.py', mustcall.rule_for('C02')),
     ('C02.V', 'no unreviewed condition in the pinned helpers', 'for each helper whose body this property\'s rules pin (tables/condition_terms.json), the terms its path conditions are built from (fields, parameters, call results -- no constants, operators or local names) are a subset of the reviewed vocabulary: one more `if` in front of a pinned result (a lock that may time out, "only while an endpoint is running") is reported; see rules/vocab.py', vocab.rule_for('C02')),
+    ('C02.S', 'state inventory', 'every field of the structs this property\'s rules read (tables/state.json) is known, and is written only by its reviewed writers (or helpers only they call): a new field is new state across calls -- a cache, a flag, a stored deadline -- that nothing has shown to stay in step; a new writer is a second place that resets, re-arms or moves something; see rules/inventory.py', inventory.state_rule_for('C02')),
+    ('C02.E', 'error-exit inventory', 'every (function, GgrsError variant) pair constructed in the crate is listed in tables/error_exits.json: a call that can fail in a new way -- typically after effects whose requests are then dropped -- is reported; see rules/inventory.py', inventory.error_rule),
 ]
